@@ -191,6 +191,12 @@ def _view(stmt):
             r = Response('mv%d:%s' % (sid, request if isinstance(request, str) else 'unmapped'))
             r.headers['X-View'] = 'v%d' % sid
             return r
+        if ret == 'wrap':
+            # a wrapper view (reached through another view's wrapper= option): frames the wrapped view's body
+            inner = getattr(request, 'wrapped_response', None)
+            r = Response('<f%d>%s</f>' % (sid, getattr(request, 'wrapped_body', b'-').decode('latin-1')))
+            r.headers['X-View'] = 'w%d(%s)' % (sid, inner.headers.get('X-View') if inner is not None else '-')
+            return r
         r = Response('v%d' % sid)
         r.headers['X-View'] = 'v%d' % sid
         if kind in ('notfound',):
@@ -372,6 +378,11 @@ def declare(config, st, in_prefix=False):
             kw['request_method'] = st['method']
         if st.get('rp') is not None:
             kw['rp'] = st['rp']
+        if st.get('nones'):
+            for a in ('factory', 'request_method', 'header', 'xhr', 'accept', 'path_info', 'request_param', 'traverse',
+                      'custom_predicates', 'pregenerator', 'use_global_views') [:7 + sid % 4]:
+                kw.setdefault(a, None if a != 'custom_predicates' else ())
+            kw.pop('custom_predicates', None)
         config.add_route(st['name'], st['pattern'], **kw)
     elif k == 'view':
         kw = {}
@@ -398,9 +409,17 @@ def declare(config, st, in_prefix=False):
             kw['tagopt'] = st['dopt']
         if st.get('dopt2') is not None:
             kw['tagopt2'] = st['dopt2']
+        if st.get('wrapper'):
+            kw['wrapper'] = st['wrapper']
         v = _view(st)
+        if st.get('nones'):
+            for a in ('attr', 'renderer', 'wrapper', 'route_name', 'request_method', 'request_param', 'containment',
+                      'xhr', 'accept', 'header', 'path_info', 'decorator', 'mapper', 'http_cache', 'match_param'):
+                kw.setdefault(a, None)
         if kind == 'view':
-            if st.get('ctx'):
+            if st.get('ctx') == 'E':
+                kw['context'] = _P['I'].IExceptionResponse
+            elif st.get('ctx'):
                 kw['context'] = CTX[st['ctx']]
             if st.get('perm'):
                 kw['permission'] = _P['NOPERM'] if st['perm'] == 'NOPERM' else st['perm']
@@ -408,6 +427,8 @@ def declare(config, st, in_prefix=False):
                 kw['require_csrf'] = st['csrf']
             config.add_view(v, name=st.get('name', ''), **kw)
         elif kind == 'notfound':
+            if st.get('aslash'):
+                kw['append_slash'] = True
             config.add_notfound_view(v, **kw)
         elif kind == 'forbidden':
             config.add_forbidden_view(v, **kw)
@@ -570,7 +591,7 @@ def _disc_family(d):
     return _iname(d)
 
 
-def build_variant(stmts, body):
+def build_variant(stmts, body, rootprefix=None):
     """stmts: {id: stmt}; body: nested list (int = statement id, {'inc': body} = include).
     Returns Built with: outcome, decl (per action: sid, order, deferred), runs, monitor log,
     registry, app."""
@@ -581,9 +602,10 @@ def build_variant(stmts, body):
     out.decl = []
     out.app = None
     out.registry = None
+    out.rootprefix = rootprefix
     try:
         reg = _P['MonRegistry']('c08')
-        config = _P['Configurator'](registry=reg)
+        config = _P['Configurator'](registry=reg, route_prefix=rootprefix)
         config.setup_registry()               # defaults are committed before the program starts
         reg.c08_attach(mon)
         config.add_subscriber(_prelude_response_subscriber, _P['NewResponse'])
@@ -651,10 +673,12 @@ def build_variant(stmts, body):
                     run_body(c, sub, in_prefix or pfx)
                 includeme.__name__ = 'inc_%d' % state['inc']
                 includeme.__qualname__ = includeme.__name__
-                if pfx:
-                    cfg.include(includeme, route_prefix=PREFIX)
-                else:
-                    cfg.include(includeme)
+                for _ in range(2 if it.get('twice') else 1):
+                    # (a second include of the same callable inside one commit is skipped by ActionState.processSpec)
+                    if pfx:
+                        cfg.include(includeme, route_prefix=PREFIX)
+                    else:
+                        cfg.include(includeme)
 
     try:
         run_body(config, body)
@@ -736,9 +760,21 @@ def registrations(b, stmts):
             route_of['__%s/' % st['name']] = st['id']
     custom = {(st['k'], st['name']): st['id'] for st in mains if st['k'] in ('vpred', 'rpred', 'deriver')}
     out = {}
+    rootp = (getattr(b, 'rootprefix', None) or '').strip('/')
+
+    def canon(name):
+        # StaticURLInfo.add names the route of a static view '__<route_prefix>/<name>': an internal name (it never
+        # reaches an answer) that spells the root configurator's unnormalised prefix differently at top level
+        # ('__api//st1/') and inside an include ('__api/st1/'); the abstract key is the name without the prefix
+        if rootp and isinstance(name, str) and name.startswith('__'):
+            import re
+            m = re.match(r'__/*%s/+(.*)$' % re.escape(rootp), name)
+            if m:
+                return '__' + m.group(1)
+        return name
     mapper = q(I.IRoutesMapper)
     if mapper is not None:
-        rs = [pattern_of.get((r.name, r.pattern), route_of.get(r.name, -1)) for r in mapper.get_routes(include_static=True)]
+        rs = [pattern_of.get((r.name, r.pattern), route_of.get(canon(r.name), -1)) for r in mapper.get_routes(include_static=True)]
         if rs:
             out['routes'] = rs
     for iface, key in ((I.ISecurityPolicy, 'policy'), (I.IRootFactory, 'rootf'), (I.ISessionFactory, 'sessf'),
@@ -756,7 +792,7 @@ def registrations(b, stmts):
         if hasattr(f, 'c08_sid'):
             out['renderer:%s' % name] = [f.c08_sid]
     for name, f in Registry.getUtilitiesFor(reg, I.IRouteRequest):
-        out['riface:%s' % name] = [route_of.get(name, -1)]
+        out['riface:%s' % canon(name)] = [route_of.get(canon(name), -1)]
     ex = q(I.IRequestExtensions)
     if ex is not None:
         names = list(ex.methods) + list(ex.descriptors)
@@ -789,10 +825,21 @@ def registrations(b, stmts):
         i = item['introspectable']
         c = i.get('callable')
         sid = getattr(c, 'c08_sid', None)
-        if sid is None and i.get('route_name') in route_of and str(i.get('route_name')).startswith('__'):
-            sid = route_of[i.get('route_name')]
+        if sid is None and hasattr(c, 'notfound_view'):
+            # add_notfound_view(append_slash=True): the registered callable is the factory around the derived view
+            nv = c.notfound_view
+            sid = getattr(getattr(nv, '__original_view__', nv), 'c08_sid', None)
+        if sid is None and canon(i.get('route_name')) in route_of and str(i.get('route_name')).startswith('__'):
+            sid = route_of[canon(i.get('route_name'))]
         if sid is not None:
             derived[id(i.get('derived_callable'))] = sid
+    def member(v):
+        # a view on an exception context registered with add_view is stored as two derived callables (ordinary and
+        # exception classifier) while the introspectable records the runtime_exc_view wrapper: go through the original view
+        m = derived.get(id(v), -1)
+        if m == -1:
+            m = getattr(getattr(v, '__original_view__', None), 'c08_sid', -1)
+        return m
     slots = {}
     real = reg.__dict__['adapters']._real if isinstance(reg.__dict__.get('adapters'), _AdaptersProxy) else reg.adapters
     for r in Registry.registeredAdapters(reg):
@@ -802,10 +849,10 @@ def registrations(b, stmts):
             if real.registered(r.required, r.provided, r.name) is not f:
                 continue
             if r.provided is I.IMultiView:
-                members = [derived.get(id(v), -1) for (_, v, _) in f.views]
-                members += [derived.get(id(v), -1) for acc in f.accepts for (_, v, _) in f.media_views[acc]]
+                members = [member(v) for (_, v, _) in f.views]
+                members += [member(v) for acc in f.accepts for (_, v, _) in f.media_views[acc]]
             else:
-                members = [derived.get(id(f), -1)]
+                members = [member(f)]
             for m in members:
                 if m != -1:
                     slots.setdefault('view:' + slotkey(stmts[m]), []).append(m)
@@ -830,7 +877,7 @@ def registrations(b, stmts):
             out['accept'] = l
     sinfo = q(I.IStaticURLInfo)
     if sinfo is not None:
-        l = [route_of.get(rn, -1) for (_, _, rn) in sinfo.registrations]
+        l = [route_of.get(canon(rn), -1) for (_, _, rn) in sinfo.registrations]
         if l:
             out['static'] = l
     return out
